@@ -2,12 +2,11 @@ package props
 
 import (
 	"fmt"
-	"regexp"
 	"sort"
-	"strconv"
 	"strings"
 
 	"github.com/acekingke/yaccgo/verifsim/enga"
+	"github.com/acekingke/yaccgo/verifsim/engbrt"
 	"github.com/acekingke/yaccgo/verifsim/ref"
 	"github.com/acekingke/yaccgo/verifsim/rng"
 	"github.com/acekingke/yaccgo/verifsim/wl"
@@ -100,38 +99,31 @@ func execC12(ctx *Ctx, in *Input) *Result {
 
 // ---------------------------------------------------------------- C11
 
-var (
-	goConstRe   = regexp.MustCompile(`(?m)^const ([A-Za-z_][A-Za-z0-9_]*) = (-?\d+)\s*$`)
-	goCaseRe    = regexp.MustCompile(`case (-?\d+):\s*\n\s*conv = (\d+)`)
-	goTransFunc = regexp.MustCompile(`(?s)func translate\(c int\) int \{(.*?)\n\treturn conv`)
-	tsTransFunc = regexp.MustCompile(`(?s)function translate\(c :number\) :number \{(.*?)\n\treturn conv`)
-)
-
 func genC11(ctx *Ctx, i int) *Input {
 	r := rng.New(ctx.Seed, "C11", i)
-	in := &Input{Index: i}
-	if i%4 == 3 {
-		in.Spec = mixedSpec(ctx, r.Sub("spec"))
-	} else {
-		in.Spec = wl.TokenMix(r.Sub("spec"))
+	in := &Input{Index: i, Sub: r.Uint64()}
+	n := 8
+	for k := 0; k < n; k++ {
+		if k%4 == 3 {
+			in.Specs = append(in.Specs, mixedSpec(ctx, r.Sub("spec", k)))
+		} else {
+			in.Specs = append(in.Specs, wl.TokenMix(r.Sub("spec", k)))
+		}
 	}
 	in.Variants = []wl.Variant{wl.AllVariants[r.Intn(4)], {Lang: "ts"}}
 	if r.Chance(1, 2) {
 		in.LayoutSeed = r.Uint64() | 1
 	}
-	in.Scheds = schedules(ctx, r.Sub("sched"), numSched(ctx, 3, 8))
+	// schedule 0 is the one the files are generated and compiled under; it alternates canonical / swarm
+	in.Scheds = schedules(ctx, r.Sub("sched"), numSched(ctx, 4, 8))
+	if i%2 == 1 && len(in.Scheds) > 1 {
+		in.Scheds[0], in.Scheds[1] = in.Scheds[1], in.Scheds[0]
+	}
 	return in
 }
 
-func execC11(ctx *Ctx, in *Input) *Result {
-	res := &Result{}
-	s := in.Spec
-	g := ref.New(s)
-	if ok, _ := g.Usable(); !ok {
-		res.Count("excluded_unusable", 1)
-		return res
-	}
-	// terminals yaccgo must know: declared with %token / in a precedence line, or used in a rule
+// knownTerms: terminals yaccgo must know: declared with %token / in a precedence line, or used in a rule.
+func knownTerms(s *wl.Spec) map[int]bool {
 	known := map[int]bool{}
 	for _, t := range s.UsedTerms() {
 		known[t] = true
@@ -141,181 +133,264 @@ func execC11(ctx *Ctx, in *Input) *Result {
 			known[ti] = true
 		}
 	}
-	for _, v := range in.Variants {
-		text := in.textFor(v, wl.EpiMinimal)
-		for si, sc := range in.Scheds {
-			fail := func(class, f string, a ...any) *Result {
-				res.Viol = &Violation{Class: class, Key: class, Msg: fmt.Sprintf("variant %s, schedule %d (%s): ", v, si, sc) + fmt.Sprintf(f, a...)}
-				return res
-			}
-			// one build run for the symbol table, one gen run for the file (same schedule => same run)
-			ob := enga.Run(enga.Case{Text: text, Variant: v, Sched: sc, Mode: "build"})
+	return known
+}
+
+// checkSymbolTable applies the numbering rules to the symbol table of one run.
+func checkSymbolTable(s *wl.Spec, a *Auto) (class, msg string, codeOf, idOf map[string]int) {
+	codeOf, idOf = map[string]int{}, map[string]int{}
+	seenCode := map[int]string{}
+	for y, name := range a.SymName {
+		if a.IsNT[y] {
+			continue
+		}
+		codeOf[name] = a.Value[y]
+		idOf[name] = y
+		if prev, dup := seenCode[a.Value[y]]; dup {
+			return "duplicate-token-code", fmt.Sprintf("terminals %s and %s both have code %d", prev, name, a.Value[y]), nil, nil
+		}
+		seenCode[a.Value[y]] = name
+		if a.Value[y] == -1 && name != "$" {
+			return "code-collides-with-end-marker", fmt.Sprintf("terminal %s has code -1", name), nil, nil
+		}
+		if a.Value[y] == 0 {
+			return "token-code-zero", fmt.Sprintf("terminal %s has code 0", name), nil, nil
+		}
+	}
+	if codeOf["$"] != -1 {
+		return "end-marker-code", fmt.Sprintf("the end marker has code %d, not -1", codeOf["$"]), nil, nil
+	}
+	known := knownTerms(s)
+	for ti, t := range s.Terms {
+		if !known[ti] {
+			continue
+		}
+		c, ok := codeOf[t.YName()]
+		if !ok {
+			return "terminal-missing", fmt.Sprintf("terminal %s is not in yaccgo's symbol table", t.Key()), nil, nil
+		}
+		if t.Name == "" && c != int(t.Lit) {
+			return "literal-code", fmt.Sprintf("literal %s has code %d, its character code is %d", t.Key(), c, int(t.Lit)), nil, nil
+		}
+		if t.Name != "" && t.Code != 0 && c != t.Code {
+			return "explicit-code-lost", fmt.Sprintf("token %s was declared with number %d but has code %d", t.Name, t.Code, c), nil, nil
+		}
+	}
+	return "", "", codeOf, idOf
+}
+
+func execC11(ctx *Ctx, in *Input) *Result {
+	res := &Result{}
+	if in.Spec != nil && len(in.Specs) == 0 {
+		in.Specs = []*wl.Spec{in.Spec}
+	}
+	// ---- (a) the symbol table under every schedule
+	for si, s := range in.Specs {
+		if ok, _ := ref.New(s).Usable(); !ok {
+			res.Count("excluded_unusable", 1)
+			continue
+		}
+		text := renderSpec(s, wl.Variant{Lang: "go"}, in.LayoutSeed, wl.EpiNone)
+		for k, sc := range in.Scheds {
+			ob := enga.Run(enga.Case{Text: text, Variant: wl.Variant{Lang: "go"}, Sched: sc, Mode: "build"})
 			logObs(res, ob)
+			res.SimTicks += ob.Ticks
 			res.Count("runs", 1)
 			if ob.Outcome != enga.OutOK {
 				res.Count("skipped_generation_failed(C12)", 1)
 				continue
 			}
-			a := Snapshot(ob.L)
-			codeOf := map[string]int{}
-			idOf := map[string]int{}
-			seenCode := map[int]string{}
-			for y, name := range a.SymName {
-				if a.IsNT[y] {
-					continue
-				}
-				codeOf[name] = a.Value[y]
-				idOf[name] = y
-				if prev, dup := seenCode[a.Value[y]]; dup {
-					return fail("duplicate-token-code", "terminals %s and %s both have code %d", prev, name, a.Value[y])
-				}
-				seenCode[a.Value[y]] = name
-				if a.Value[y] == -1 && name != "$" {
-					return fail("code-collides-with-end-marker", "terminal %s has code -1", name)
-				}
-				if a.Value[y] == 0 {
-					return fail("token-code-zero", "terminal %s has code 0", name)
-				}
+			if class, msg, _, _ := checkSymbolTable(s, Snapshot(ob.L)); class != "" {
+				res.Viol = &Violation{Class: class, Key: class, Sub: si, Msg: fmt.Sprintf("tokens [%s], schedule %d (%s): %s", tokenDecls(s), k, sc, msg)}
+				return res
 			}
-			if codeOf["$"] != -1 {
-				return fail("end-marker-code", "the end marker has code %d, not -1", codeOf["$"])
+			res.Count("symbol_tables_checked", 1)
+		}
+		lit, expl, auto := 0, 0, 0
+		for _, t := range s.Terms {
+			if t.Name == "" {
+				lit++
+			} else if t.Code != 0 {
+				expl++
+			} else {
+				auto++
 			}
-			for ti, t := range s.Terms {
-				if !known[ti] {
-					continue
-				}
-				c, ok := codeOf[t.YName()]
-				if !ok {
-					return fail("terminal-missing", "terminal %s is not in yaccgo's symbol table", t.Key())
-				}
-				if t.Name == "" && c != int(t.Lit) {
-					return fail("literal-code", "literal %s has code %d, its character code is %d", t.Key(), c, int(t.Lit))
-				}
-				if t.Name != "" && t.Code != 0 && c != t.Code {
-					return fail("explicit-code-lost", "token %s was declared with number %d but has code %d", t.Name, t.Code, c)
-				}
-				if t.Name != "" && t.Code == 0 {
-					res.Count("probe_auto_numbered_token", 1)
-				}
+		}
+		if lit > 0 && expl > 0 {
+			res.Count("probe_literals_and_explicit_numbers", 1)
+		}
+		if auto > 0 {
+			res.Count("probe_auto_numbered_token", 1)
+		}
+		res.Keys = append(res.Keys, hkey(jsonStr(s.Terms), jsonStr(s.Levels)))
+	}
+	// ---- (b) the generated files under schedule 0, through their compiled code
+	variants := in.Variants
+	if len(variants) == 0 {
+		variants = []wl.Variant{{Lang: "go"}, {Lang: "ts"}}
+	}
+	pb, ok := prepareBatch(ctx, res, in, variants, wl.EpiFull, feedSizes{})
+	defer pb.cleanup()
+	if !ok {
+		return res
+	}
+	var goJobs, tsJobs []engbrt.Job
+	probes := map[string][]int{}
+	for _, sc := range pb.Specs {
+		if sc.Auto == nil {
+			continue
+		}
+		isCode := map[int]bool{}
+		var codes []int
+		for y := range sc.Auto.SymName {
+			if !sc.Auto.IsNT[y] {
+				codes = append(codes, sc.Auto.Value[y])
+				isCode[sc.Auto.Value[y]] = true
 			}
-			og := enga.Run(enga.Case{Text: text, Variant: v, Sched: sc, Mode: "gen"})
-			logObs(res, og)
-			res.Count("runs", 1)
-			if og.Outcome != enga.OutOK {
+		}
+		sort.Ints(codes)
+		// a band of other integers: small, around every code, large, negative
+		other := []int{0, -2, -3, -100, 1 << 20, 999999}
+		for c := -1; c < 300; c += 7 {
+			other = append(other, c)
+		}
+		for _, c := range codes {
+			other = append(other, c-1, c+1)
+		}
+		for _, c := range other {
+			if !isCode[c] {
+				codes = append(codes, c)
+			}
+		}
+		for _, u := range sc.sortedUnits() {
+			if u.GenErr != "" {
+				continue
+			}
+			probes[u.Name] = codes
+			j := engbrt.Job{Parser: u.Name, Kind: "translate", Codes: codes}
+			if u.CompErr != "" {
+				continue
+			}
+			if u.Variant.Lang == "go" {
+				goJobs = append(goJobs, j)
+			} else {
+				tsJobs = append(tsJobs, j)
+			}
+		}
+	}
+	results := map[string]*engbrt.JobResult{}
+	if pb.Go != nil && len(goJobs) > 0 {
+		rs, err := pb.Go.Run(goJobs)
+		if err != nil {
+			res.Harness = "engine B run: " + err.Error()
+			return res
+		}
+		for i := range rs {
+			results[rs[i].Parser] = &rs[i]
+		}
+	}
+	if len(tsJobs) > 0 {
+		rs, err := engbRunTS(ctx, pb, tsJobs)
+		if err != nil {
+			res.Harness = "engine B (node): " + err.Error()
+			return res
+		}
+		for i := range rs {
+			results[rs[i].Parser] = &rs[i]
+		}
+	}
+	for si, sc := range pb.Specs {
+		if sc.Auto == nil {
+			continue
+		}
+		_, _, codeOf, idOf := checkSymbolTable(sc.Spec, sc.Auto)
+		if codeOf == nil {
+			continue // already reported by (a) if it is a violation under schedule 0
+		}
+		idOfCode := map[int]int{}
+		for n, c := range codeOf {
+			idOfCode[c] = idOf[n]
+		}
+		for _, u := range sc.sortedUnits() {
+			fail := func(class, f string, a ...any) *Result {
+				res.Viol = &Violation{Class: class, Key: class, Sub: si, Msg: fmt.Sprintf("tokens [%s], variant %s: ", tokenDecls(sc.Spec), u.Variant) + fmt.Sprintf(f, a...)}
+				return res
+			}
+			if u.GenErr != "" {
 				res.Count("skipped_generation_failed(C12)", 1)
 				continue
 			}
-			out := string(og.Output)
-			// constants: exactly the named tokens, with their codes
-			consts := map[string]int{}
-			for _, m := range goConstRe.FindAllStringSubmatch(out, -1) {
-				n, _ := strconv.Atoi(m[2])
-				if m[1] == "ERROR_ACTION" || m[1] == "ACCEPT_ACTION" || m[1] == "NTERMINALS" {
-					continue
+			if u.CompErr != "" {
+				if strings.Contains(u.CompErr, "duplicate case") || strings.Contains(u.CompErr, "redeclared") {
+					return fail("generated-file-duplicate-definition", "the generated file does not compile because a token code or constant is defined twice:\n%s", firstLines(u.CompErr, 4))
 				}
-				if _, dup := consts[m[1]]; dup {
-					return fail("constant-defined-twice", "constant %s is defined twice", m[1])
-				}
-				consts[m[1]] = n
+				res.Count("skipped_does_not_compile(C16)", 1)
+				continue
 			}
-			for ti, t := range s.Terms {
+			jr := results[u.Name]
+			if jr == nil || jr.Err != "" {
+				res.Count("skipped_not_loaded(C16)", 1)
+				continue
+			}
+			// constants: every named token, with its code
+			known := knownTerms(sc.Spec)
+			for ti, t := range sc.Spec.Terms {
 				if t.Name == "" || !known[ti] {
 					continue
 				}
-				c, ok := consts[t.Name]
+				c, ok := jr.Consts[t.Name]
 				if !ok {
-					return fail("constant-missing", "no constant is defined for token %s", t.Name)
+					return fail("constant-missing", "no constant is usable for token %s", t.Name)
 				}
 				if c != codeOf[t.Name] {
 					return fail("constant-wrong-code", "constant %s = %d but the token's code is %d", t.Name, c, codeOf[t.Name])
 				}
-				delete(consts, t.Name)
 			}
-			var cnames []string
-			for n := range consts {
-				cnames = append(cnames, n)
+			// translate: every code -> its own symbol; -1 -> end marker; any other integer -> the error column (symbol 0)
+			codes := probes[u.Name]
+			if len(jr.Trans) != len(codes) {
+				res.Harness = "translate probe count mismatch"
+				return res
 			}
-			sort.Strings(cnames)
-			for _, n := range cnames {
-				isNT := false
-				for _, nt := range s.NTs {
-					if nt.Name == n {
-						isNT = true
+			for k, c := range codes {
+				want, isTok := idOfCode[c]
+				if !isTok {
+					want = 0
+				}
+				if jr.Trans[k] != want {
+					if isTok {
+						return fail("translate-wrong-symbol", "translate(%d) = %d, but %d is the code of symbol %d (%s)", c, jr.Trans[k], c, want, sc.Auto.SymName[want])
 					}
+					return fail("translate-maps-foreign-code", "translate(%d) = %d, but %d is no token code: it must map to the error column 0", c, jr.Trans[k], c)
 				}
-				if isNT {
-					return fail("constant-for-nonterminal", "a token constant is defined for nonterminal %s", n)
-				}
-			}
-			// translate: every code -> its own symbol id, -1 -> end marker, nothing else
-			re := goTransFunc
-			if v.Lang == "ts" {
-				re = tsTransFunc
-			}
-			m := re.FindStringSubmatch(out)
-			if m == nil {
-				return fail("translate-not-found", "no translate function in the generated file")
-			}
-			cases := map[int]int{}
-			for _, c := range goCaseRe.FindAllStringSubmatch(m[1], -1) {
-				code, _ := strconv.Atoi(c[1])
-				id, _ := strconv.Atoi(c[2])
-				if _, dup := cases[code]; dup {
-					return fail("translate-duplicate-case", "translate has two cases for code %d", code)
-				}
-				cases[code] = id
-			}
-			var tnames []string
-			for name := range codeOf {
-				tnames = append(tnames, name)
-			}
-			sort.Strings(tnames)
-			for _, name := range tnames {
-				code := codeOf[name]
-				id, ok := cases[code]
-				if !ok {
-					return fail("translate-missing-case", "translate has no case for %s (code %d)", name, code)
-				}
-				if id != idOf[name] {
-					return fail("translate-wrong-symbol", "translate maps code %d (%s) to symbol %d, its symbol is %d", code, name, id, idOf[name])
-				}
-				delete(cases, code)
-			}
-			if len(cases) > 0 {
-				var extra []int
-				for code := range cases {
-					extra = append(extra, code)
-				}
-				sort.Ints(extra)
-				return fail("translate-extra-case", "translate maps code %d, which is no token, to symbol %d", extra[0], cases[extra[0]])
-			}
-			if !strings.Contains(m[1], "conv") {
-				return fail("translate-shape", "translate body not understood")
 			}
 			res.Count("files_checked", 1)
+			res.Count("translate_probes", len(codes))
 		}
 	}
-	lit, expl := 0, 0
-	for _, t := range s.Terms {
-		if t.Name == "" {
-			lit++
-		}
-		if t.Code != 0 {
-			expl++
-		}
-	}
-	if lit > 0 && expl > 0 {
-		res.Count("probe_literals_and_explicit_numbers", 1)
-	}
-	res.Keys = append(res.Keys, hkey(jsonStr(s.Terms), jsonStr(s.Levels)))
-	if in.Index%40 == 0 {
-		var decl []string
-		for _, t := range s.Terms {
-			decl = append(decl, fmt.Sprintf("%s(code=%d,decl=%d,tag=%s)", t.Key(), t.Code, t.Decl, t.Tag))
-		}
-		res.Sample = map[string]any{"tokens": decl, "schedules": len(in.Scheds)}
+	if len(in.Specs) > 0 {
+		res.Sample = map[string]any{"tokens_of_first_grammar": tokenDecls(in.Specs[0]), "grammars": len(in.Specs), "schedules": len(in.Scheds), "variants": fmt.Sprint(variants)}
 	}
 	return res
+}
+
+func tokenDecls(s *wl.Spec) string {
+	var decl []string
+	for _, t := range s.Terms {
+		d := t.Key()
+		if t.Code != 0 {
+			d += fmt.Sprintf("=%d", t.Code)
+		}
+		if t.Tag != "" {
+			d += "<" + t.Tag + ">"
+		}
+		d += []string{"", "(prec-only)", "(use-only)"}[t.Decl]
+		if t.Redecl {
+			d += "(redeclared)"
+		}
+		decl = append(decl, d)
+	}
+	return strings.Join(decl, " ")
 }
 
 func init() {
@@ -329,11 +404,13 @@ func init() {
 		Assume:    []string{"reference productivity fixpoint", "a refusal 'says why' when it carries any non-empty diagnostic that is not a Go runtime error"},
 	})
 	Register(&Checker{
-		ID: "C11", Level: "exploration", Engine: "A",
-		Rule: "case = (token-declaration mix, 2 variants incl. typescript, K map-order schedules); mixes of explicit numbers (small, large, negative, next to literal codes), character literals declared or only used, tagged/untagged, declared by %token, only by a precedence line, re-declared to add a number. Checked per run: the symbol table (codes) and the emitted constants and translate switch of the file produced under the same schedule. distinct_nontrivial = distinct token declaration sets.",
-		NumCases: func(ctx *Ctx) int { return fixedCases(ctx, 600, 40000) },
+		ID: "C11", Level: "exploration", Engine: "A+B",
+		Rule: "case = 8 token-declaration mixes (explicit numbers small/large/negative/next to literal codes, character literals declared or only used, tagged/untagged, declared by %token, several per %token line, only by a precedence line, re-declared to add a number) x K map-order schedules: (a) the symbol table of every run is checked against the numbering rules; (b) the files generated under schedule 0 in one Go variant and in TypeScript are compiled / loaded and probed: every named token's constant, translate(code) for every token code, -1 and a band of other integers. distinct_nontrivial = distinct token declaration sets.",
+		NumCases: func(ctx *Ctx) int { return fixedCases(ctx, 96, 6000) },
 		Gen:      genC11, Exec: execC11,
-		Probes: []string{"probe_auto_numbered_token", "probe_literals_and_explicit_numbers", "files_checked"},
-		Assume: []string{"constants and translate cases are recognised textually in the generated file (const NAME = n; case n: conv = m); the compiled translate function is exercised by the engine-B checks"},
+		Probes: []string{"probe_auto_numbered_token", "probe_literals_and_explicit_numbers", "files_checked", "translate_probes", "symbol_tables_checked"},
+		Assume: []string{"constants and translate are observed through the compiled generated code (an epilogue function returns the constants by name; translate is called directly), not by reading the text"},
+		Real:   []string{"yaccgo generator (instrumented copy)", "go build / node on the generated files", "generated translate() and constants"},
+		Stubs:  []string{"map-iteration order shim", "TypeScript type eraser"},
 	})
 }
